@@ -105,6 +105,9 @@ enum Op {
     Route(usize),
     Layer,
     Merge(usize),
+    /// merge a sub-table that was built BEFORE the first operation of this program (its routes
+    /// are older than everything the table holds when it is merged in)
+    MergePre(usize),
     Rpc(usize),
     /// keep a clone of the table as it is now; the program goes on extending the original, and
     /// at the end the clone must still route exactly as it did when it was taken
@@ -116,6 +119,7 @@ fn op_json(o: &Op) -> Value {
         Op::Route(p) => json!(["route", PATTERNS[*p]]),
         Op::Layer => json!(["route_layer", 0]),
         Op::Merge(s) => json!(["merge", s]),
+        Op::MergePre(s) => json!(["merge_table_built_earlier", s]),
         Op::Fork => json!(["clone_kept_aside", 0]),
         Op::Rpc(n) => {
             let name = ["Greeter.Admin", "Greeter", "b"][*n];
@@ -145,6 +149,8 @@ fn alphabet() -> Vec<Op> {
         v.push(Op::Rpc(n));
     }
     v.push(Op::Fork);
+    v.push(Op::MergePre(0));
+    v.push(Op::MergePre(2));
     v
 }
 
@@ -161,10 +167,26 @@ struct Builder {
 
 impl Builder {
     fn build(&mut self, prog: &[Op]) -> (Router, RefTable) {
+        // sub-tables that exist before this table's first operation
+        let mut pre: std::collections::VecDeque<(Router, RefTable)> = prog
+            .iter()
+            .filter_map(|op| match op {
+                Op::MergePre(s) => Some(*s),
+                _ => None,
+            })
+            .collect::<Vec<_>>()
+            .into_iter()
+            .map(|s| self.build(&sub_programs()[s]))
+            .collect();
         let mut r = Router::new();
         let mut t: RefTable = vec![];
         for op in prog {
             match op {
+                Op::MergePre(_) => {
+                    let (sub, st) = pre.pop_front().unwrap();
+                    r = r.merge(sub);
+                    t.extend(st);
+                }
                 Op::Route(p) => {
                     let id = self.next_svc;
                     self.next_svc += 1;
